@@ -212,6 +212,9 @@ func (s Sample) GeoMean() float64 {
 		if w == 0 {
 			continue
 		}
+		if x <= 0 {
+			return math.NaN()
+		}
 		wsum += w
 		lx := math.Log(x)
 		m += (lx - m) * w / wsum
